@@ -22,6 +22,7 @@ import Mathlib.Analysis.Calculus.Deriv.Polynomial
 import Mathlib.Topology.Order.Compact
 import Mathlib.Topology.Algebra.Polynomial
 import Sb.Model.Stats
+import Sb.Proofs.CertSound
 
 namespace Sb.C15
 open Sb Sb.Poly Sb.Stats
